@@ -157,6 +157,17 @@ def _eval_case(base, sub, with_repo, with_version, ambient=False):
     return out
 
 
+def near_versions():
+    """version strings that differ from the running version but are 'close' to it"""
+    from codelimit.common.report.Report import Report
+
+    v = Report.VERSION
+    parts = v.split(".")
+    out = {v + ".post1", v + "rc1", ".".join(parts[:2]), ".".join(parts[:2] + ["0"]), ".".join(parts[:2] + [str(int(parts[2]) + 1)]) if parts[2:] and parts[2].isdigit() else v + ".1",
+           "v" + v, v + " ", v.replace(".", "_"), v}
+    return sorted(out)
+
+
 def cases(tier):
     flags = list(itertools.product([True, False], [True, False]))
     for base in BASES:
@@ -165,6 +176,10 @@ def cases(tier):
             for f in FIELDS:
                 for s in STRINGS:
                     yield base, {f: s}, wr, wv
+    for base in BASES:
+        for nv in near_versions():
+            yield base, {"version": nv}, True, True
+            yield base, {"version": nv}, False, True
     pair_bases = ["two-files"] if tier == "quick" else ["two-files", "nested"]
     pair_strings = HOSTILE if tier == "quick" else STRINGS
     for base in pair_bases:
